@@ -56,8 +56,10 @@ type History struct {
 }
 
 const (
-	shapeSharedRoot = "retained-root-record-equals-pruned-older-root"
-	shapeStaleFork  = "stale-index-entry-of-dead-fork-at-never-recommitted-height-shadows-live-version"
+	shapeSharedRoot    = "retained-root-record-equals-pruned-older-root"
+	shapeStaleFork     = "stale-index-entry-of-dead-fork-at-never-recommitted-height-shadows-live-version"
+	shapeStaleSurvived = "stale-index-entry-survived-recommit-dead-fork-root-record-rewritten-by-identical-root-at-other-height"
+	shapeMemTree       = "memtree-serves-stale-children-of-rewritten-recurring-root-record-after-prune"
 )
 
 // ---------------------------------------------------------------------------------------------
@@ -198,6 +200,7 @@ type HistResult struct {
 }
 
 type chainEntry struct {
+	W     map[string]bool // keys written by this commit
 	H     int64
 	Root  []byte
 	M     map[string]string
@@ -455,6 +458,7 @@ func (r *runner) check(op int, where string) {
 	r.cnt["nodes_walked"] += int64(len(visit))
 	// reads through the real store
 	var readFail []string
+	failRoots := map[string]bool{}
 	for _, e := range ret {
 		keys := make([][]byte, len(r.keys))
 		for i, k := range r.keys {
@@ -464,6 +468,7 @@ func (r *runner) check(op int, where string) {
 		p := guard(func() { vals = r.st.Get(&types.StoreGet{StateHash: e.Root, Keys: keys}) })
 		if p != "" {
 			r.cnt["read_panics"]++
+			failRoots[string(e.Root)] = true
 			readFail = append(readFail, fmt.Sprintf("Get at height %d root %s panicked: %s", e.H, hex.EncodeToString(e.Root)[:16], lib.ShortList(strings.Split(p, "\n"), 1)))
 			continue
 		}
@@ -476,6 +481,7 @@ func (r *runner) check(op int, where string) {
 					readFail = append(readFail, fmt.Sprintf("Get(height %d root %s, key %q) = %q, model %q (present=%v)", e.H, hex.EncodeToString(e.Root)[:16], k, got, want, has))
 				}
 				r.cnt["read_mismatches"]++
+				failRoots[string(e.Root)] = true
 			}
 		}
 	}
@@ -492,14 +498,42 @@ func (r *runner) check(op int, where string) {
 	}
 	r.cnt["lost_live_nodes"] += int64(len(miss))
 	if len(miss) == 0 {
-		r.violate(op, "read-differs-without-lost-node", fmt.Sprintf("%s: %s", where, strings.Join(readFail, "; ")), nil)
+		// the persisted graph of every retained state is intact, yet a read failed
+		shape := "read-differs-without-lost-node"
+		if r.h.Cfg.MemTree && len(failRoots) > 0 {
+			all := true
+			for root := range failRoots {
+				hs := map[int64]bool{}
+				for _, ev := range r.events {
+					if ev.Root == root && ev.Saved {
+						hs[ev.H] = true
+					}
+				}
+				all = all && len(hs) >= 2
+			}
+			if all {
+				shape = shapeMemTree
+			}
+		}
+		r.violate(op, shape, fmt.Sprintf("%s: persisted node graph of all retained states intact (memTree=%v, failing roots produced by Saves at >=2 heights=%v): %s", where, r.h.Cfg.MemTree, shape == shapeMemTree, strings.Join(readFail, "; ")), nil)
 		return
 	}
 	// classify each lost node from measured facts
 	shapes := map[string][]string{}
 	for _, m := range miss {
 		s, why := r.classify(m)
-		shapes[s] = append(shapes[s], why)
+		parts := strings.Split(s, "+")
+		all := true
+		for _, p := range parts {
+			all = all && recordedShapes[p]
+		}
+		if all {
+			for _, p := range parts {
+				shapes[p] = append(shapes[p], why)
+			}
+		} else {
+			shapes[s] = append(shapes[s], why)
+		}
 	}
 	for s, whys := range shapes {
 		msg := fmt.Sprintf("%s (op %d, prune curHeight=%d, PruneHeight=%d): %d live node record(s) missing: %s; reads: %s", where, op, r.pruneCur, r.h.Cfg.PH,
@@ -593,41 +627,52 @@ func (r *runner) classify(m missNode) (shape, why string) {
 			continue
 		}
 		_, e0Live := live[e0.Hash]
-		if !e0Live {
-			// the entry that shadowed the live version is not referenced by any retained state
+		if !r.onChainWrite(e0) {
+			// the entry that shadows the deleted version was not written by the current chain: it is a dead fork's
 			last, ok := r.lastSaveEv[e0.H]
 			recommitted := ok && !r.events[last].Abandoned
-			everSavedOnDead := false
+			var deadRoots []string
 			for _, ev := range r.events {
 				if ev.H == e0.H && ev.Saved && ev.Abandoned {
-					everSavedOnDead = true
+					deadRoots = append(deadRoots, ev.Root)
 				}
 			}
-			if everSavedOnDead && !recommitted {
-				got[shapeStaleFork] = fmt.Sprintf("%s deleted through index entry (%q@%d); the newest eligible entry (%q@%d) is referenced by no retained state, was saved on an abandoned branch and height %d was never saved again",
-					desc, c.Key, c.H, e0.Key, e0.H, e0.H)
-			} else {
-				got["stale-index-entry-survived:"+kind] = fmt.Sprintf("%s deleted through (%q@%d); newest eligible entry (%q@%d) is dead although height re-saved=%v savedOnDeadBranch=%v",
-					desc, c.Key, c.H, e0.Key, e0.H, recommitted, everSavedOnDead)
+			switch {
+			case len(deadRoots) > 0 && !recommitted:
+				got[shapeStaleFork] = fmt.Sprintf("%s deleted through index entry (%q@%d); the newest eligible entry (%q@%d) was saved on an abandoned branch (not a write of the current chain; referenced by a retained state=%v) and height %d was never saved again",
+					desc, c.Key, c.H, e0.Key, e0.H, e0Live, e0.H)
+			case len(deadRoots) > 0 && recommitted && r.rootRecurs(deadRoots, e0.H):
+				got[shapeStaleSurvived] = fmt.Sprintf("%s deleted through index entry (%q@%d); the newest eligible entry (%q@%d) is a dead fork's; height %d WAS saved again but DelLeafCountKV did not remove it: the dead fork's root hash at %d was also produced by a Save at another height, which rewrote the unprefixed root record",
+					desc, c.Key, c.H, e0.Key, e0.H, e0.H, e0.H)
+			default:
+				got["stale-index-entry-survived:"+kind] = fmt.Sprintf("%s deleted through (%q@%d); newest eligible entry (%q@%d) is not a write of the current chain; height re-saved=%v savedOnDeadBranch=%v",
+					desc, c.Key, c.H, e0.Key, e0.H, recommitted, len(deadRoots) > 0)
 			}
 			continue
 		}
-		// the rule kept a live newer version and removed an older one whose path still carries a live record
-		if m.IsRoot {
-			older := false
-			var olderH int64
+		// the rule kept a genuine newer version and removed an older one whose path still carries a live record
+		if len(m.Key) == 32 {
+			var hs []int64
+			atCause := false
 			for _, ev := range r.events {
-				if ev.Root == m.Key && ev.Saved && ev.H <= bound && ev.H < m.StateH && ev.H == c.H {
-					older, olderH = true, ev.H
+				if ev.Root == m.Key && ev.Saved {
+					hs = append(hs, ev.H)
+					if ev.H == c.H {
+						atCause = true
+					}
 				}
 			}
-			if older {
-				got[shapeSharedRoot] = fmt.Sprintf("%s: the same root hash was produced by the commit at height %d (outside the interval, bound %d); pruning (%q@%d) deleted the shared unprefixed root record",
-					desc, olderH, bound, c.Key, c.H)
+			distinct := map[int64]bool{}
+			for _, x := range hs {
+				distinct[x] = true
+			}
+			if atCause && len(distinct) >= 2 && c.H <= bound {
+				got[shapeSharedRoot] = fmt.Sprintf("%s: the same root hash was produced by Saves at heights %v; pruning the superseded (%q@%d) (bound %d) deleted the shared unprefixed root record",
+					desc, hs, c.Key, c.H, bound)
 				continue
 			}
 		}
-		got["live-record-on-superseded-version-path:"+kind] = fmt.Sprintf("%s deleted through superseded entry (%q@%d) although newest eligible (%q@%d) is live", desc, c.Key, c.H, e0.Key, e0.H)
+		got["live-record-on-superseded-version-path:"+kind] = fmt.Sprintf("%s deleted through superseded entry (%q@%d) although newest eligible (%q@%d) is a write of the current chain", desc, c.Key, c.H, e0.Key, e0.H)
 	}
 	if len(got) == 0 {
 		return "deleted-though-only-on-entries-the-rule-keeps:" + kind, desc + " is only on index entries the prune rule must keep: " + lib.ShortList(notByRule, 4)
@@ -640,7 +685,36 @@ func (r *runner) classify(m missNode) (shape, why string) {
 	for _, s := range ss {
 		ws = append(ws, got[s])
 	}
+	// "+"-joined: the caller splits the join again when every part is a recorded shape (a record deleted for two
+	// recorded reasons is explained by both); one unexplained part keeps the join, which matches no recorded shape
 	return strings.Join(ss, "+"), strings.Join(ws, " | ")
+}
+
+var recordedShapes = map[string]bool{shapeSharedRoot: true, shapeStaleFork: true, shapeStaleSurvived: true, shapeMemTree: true}
+
+// onChainWrite: the current chain has a Save at the entry's height that wrote the entry's key.
+func (r *runner) onChainWrite(e idxEntry) bool {
+	for _, ce := range r.chain {
+		if ce.H == e.H && ce.Saved && ce.W[e.Key] {
+			return true
+		}
+	}
+	return false
+}
+
+// rootRecurs: one of the roots was also produced by a Save at a height other than h.
+func (r *runner) rootRecurs(roots []string, h int64) bool {
+	for _, ev := range r.events {
+		if !ev.Saved || ev.H == h {
+			continue
+		}
+		for _, x := range roots {
+			if ev.Root == x {
+				return true
+			}
+		}
+	}
+	return false
 }
 
 func (r *runner) tipH() int64 {
@@ -798,7 +872,11 @@ func runHistory(h *History, dir string) (res HistResult) {
 			if saved {
 				r.lastSaveEv[H] = ev.Seq
 			}
-			r.chain = append(r.chain, chainEntry{H: H, Root: root, M: m, Ev: ev.Seq, Saved: saved})
+			w := map[string]bool{}
+			for _, kv := range op.KV {
+				w[kv[0]] = true
+			}
+			r.chain = append(r.chain, chainEntry{H: H, Root: root, M: m, Ev: ev.Seq, Saved: saved, W: w})
 			if trig {
 				r.cnt["prune_runs"]++
 				r.cnt["prune_runs_background_trigger"]++
@@ -1340,7 +1418,10 @@ func run(c *lib.Ctx) {
 		c.Count("violating_histories_"+j.stratum, 1)
 		want := shapesOf(r)
 		wit := j.h
-		known := want == shapeSharedRoot || want == shapeStaleFork
+		known := true
+		for _, p := range strings.Split(want, ",") {
+			known = known && recordedShapes[p]
+		}
 		if !minimised[want] || !known {
 			if !strings.HasPrefix(j.h.Gen, "witness-") && len(minimised) < 12 {
 				// the minimised history must stay in its stratum, otherwise removal could manufacture a trigger
@@ -1364,7 +1445,8 @@ func run(c *lib.Ctx) {
 		}
 	}
 	c.Extra("adjacent_failures_not_deciding", adjacentSamples)
-	c.Extra("known_witness_reproduced", map[string]bool{"F-C05-1": knownSeen[shapeSharedRoot], "F-C05-2": knownSeen[shapeStaleFork]})
+	c.Extra("known_witness_reproduced", map[string]bool{"F-C05-1": knownSeen[shapeSharedRoot], "F-C05-2": knownSeen[shapeStaleFork],
+		"F-C05-3": knownSeen[shapeStaleSurvived], "F-C05-4": knownSeen[shapeMemTree]})
 	c.RequireEvents("reads_compared", 2000)
 	c.RequireEvents("prune_runs_that_deleted", 20)
 	c.RequireEvents("recommits_at_used_height", 10)
